@@ -160,6 +160,24 @@ Example C16_nonvacuous_ring_run :
   end.
 Proof. vm_compute. repeat split. Qed.
 
+(* the same with in-place formatted values (RPut = Ensure(amount) then the bytes at current_), the only operation
+   with a non-trivial premise [rop_ok]: after 3 bytes Ensure(3) hands over a block that is NOT full (size 3), the
+   next values fill the second block exactly; the program satisfies the premise of the ring theorems *)
+Example C16_nonvacuous_ring_run_put :
+  let prog := [RWrite [1; 2; 3]%Z; RPut 3 [4; 5]%Z; RPut 2 [6]%Z; RWrite [7]%Z] in
+  Forall (rop_ok 4) prog /\
+  match run (ring_step 3 4) (ring_init (ring_output_init 3) (ring_trash_init 3) 4 prog)
+            [0; 0; 1; 0; 0; 1; 1; 1; 0; 0; 0; 0; 0; 1; 1; 1; 0; 0; 1; 1; 1; 1; 0; 0; 0] with
+  | Some s => r_ppc s = RPDone /\ r_cpc s = RCDone /\ r_file s = [1; 2; 3; 4; 5; 6; 7]%Z /\
+              r_wsizes s = [4; 3] /\ r_flushes s = 1
+  | None => False
+  end.
+Proof.
+  split.
+  - repeat constructor.
+  - vm_compute. repeat split.
+Qed.
+
 (* ---------- PCQueue (util/pcqueue.hh:128-230), any number of producers and consumers ---------- *)
 
 (* every thread starts at the beginning of its first Produce / Consume call *)
